@@ -323,4 +323,9 @@ HARNESSES.append(
 from specs import c06 as _c06   # noqa: E402
 
 HARNESSES += [h for h in _c06.HARNESSES if h.name == "H06a-two-saves"]
+# "the saved file reopens to the same grid": the tile partition and row records every save rebuilds
+# (recalculate_table_data / recalculate_row_info) - harnesses shared with C07
+from specs import c07 as _c07   # noqa: E402
+
+HARNESSES += [h for h in _c07.HARNESSES if h.name in ("H07a", "H07b")]
 PROPERTY = "C03"
